@@ -169,6 +169,10 @@ fn shard(ctx: &ShardCtx) -> ShardResult {
     }
     // phase B: generated programs
     let mut am = Amortised::new(&ctx.work());
+    if let Err(e) = am.warm() {
+        res.harness_fault = Some(format!("std does not compile: {e}"));
+        return res;
+    }
     let mut i = ctx.first_index;
     while ctx.time_left() {
         let case = case_at(ctx.seed ^ 0x0c02, ctx.shard, i, 12, &mut res);
